@@ -83,6 +83,51 @@ enum E3 {
 }
 dbus_variant_sig!(MD, CaseW => VMS);
 
+/// enum cases whose signature is longer than 255 characters: every API must REFUSE to write such a variant (the length byte
+/// of a signature cannot say more than 255) - the derived enum like the typed wrapper and the Param API
+type LS1 = (u8, u8, u8, u8, u8);
+type LS2 = (LS1, LS1, LS1, LS1, LS1);
+type LS3 = (LS2, LS2, LS2, LS2, LS2);
+type LS4 = (LS3, LS3);
+#[derive(DMarshal, DSignature, Debug, PartialEq)]
+enum E4 {
+    One(LS4),
+    Two(LS3, LS3),
+    Named { a: LS3, b: LS3 },
+    Short(LS3),
+}
+
+fn enum_long_signature(out: &mut Out) {
+    let ls1: LS1 = (1, 2, 3, 4, 5);
+    let ls2: LS2 = (ls1, ls1, ls1, ls1, ls1);
+    let ls3: LS3 = (ls2, ls2, ls2, ls2, ls2);
+    let ls4: LS4 = (ls3, ls3);
+    for bo in ORDERS {
+        for phase in [0usize, 1, 7] {
+            let wrapper = marshal_at(&Var(ls4), bo, phase);
+            if wrapper.is_some() {
+                out.violation("long-enum-signature", "the typed variant wrapper wrote a variant whose signature has 376 characters");
+            }
+            for (name, e) in [("one unnamed field", E4::One(ls4)), ("two unnamed fields", E4::Two(ls3, ls3)), ("named fields", E4::Named { a: ls3, b: ls3 })] {
+                let got = marshal_at(&e, bo, phase);
+                if let Some(bytes) = &got {
+                    out.violation(
+                        "long-enum-signature",
+                        &format!("the derived enum wrote a case ({}) whose signature has more than 255 characters: length byte {:#x}, {} bytes [{} offset {}]; the typed wrapper refuses it", name, bytes[phase], bytes.len() - phase, bo_name(bo), phase),
+                    );
+                }
+                out.hit("enum_case_signature_too_long");
+            }
+            // 187 characters are fine and agree with the wrapper
+            let a = marshal_at(&E4::Short(ls3), bo, phase);
+            let b = marshal_at(&Var(ls3), bo, phase);
+            if a.is_none() || a != b {
+                out.violation("long-enum-signature", "a case with a 187-character signature: derived enum and typed wrapper differ");
+            }
+        }
+    }
+}
+
 /// a known case holding a tower of variants that reaches the 64-level limit from below and from above: the enum's own variant
 /// level, the array and the `k` variants of the tower all count (2 + k <= 64), exactly as for the generic variant decoder
 fn enum_depth(out: &mut Out) {
@@ -686,6 +731,7 @@ pub fn run(cfg: &Cfg) {
     run_conversions(&mut out);
     let _ = (ObjectPath::new("/").is_ok(), SignatureWrapper::new("").is_ok());
     enum_depth(&mut out);
+    enum_long_signature(&mut out);
     // the dynamic API against itself and the validator on hand-built Param trees: borrowed / owned string-likes at every
     // alignment phase, the deepest legal values (what the Param API writes, the validator accepts and the Param API reads
     // back as the same value), ill-typed trees refused
